@@ -484,6 +484,9 @@ class Runner:
                 if s.get("dtype") == "complex":
                     a = np.array(s["v"], dtype=float).reshape(-1, 2); real = (a[:, 0] + 1j * a[:, 1]).reshape(s["shape"])
                 elif s.get("dtype") == "bool": real = np.array(s["v"], dtype=bool).reshape(s["shape"])
+                elif s.get("dtype") == "int": real = np.array(s["v"], dtype=np.int64).reshape(s["shape"])          # integer-typed caller array
+                elif s.get("dtype") == "float32": real = np.array(s["v"], dtype=np.float32).reshape(s["shape"])
+                elif s.get("dtype") == "fortran": real = np.asfortranarray(np.array(s["v"], dtype=float).reshape(s["shape"]))
                 else: real = np.array(s["v"], dtype=float).reshape(s["shape"])
                 self.inputs.append(("nd", real))
             elif s["kind"] == "settings":
@@ -1717,7 +1720,7 @@ def util_args(inp):
     nb = np.array([[(i - 1) % n, (i + 1) % n] for i in range(n)], dtype=np.int64, order=inp["order"])      # a ring of pixels
     if f == "reg_constant": return {"neighbors": nb, "neighbors_sizes": np.full(n, 2, dtype=np.int64)}
     if f == "reg_weighted": return {"regularization_weights": mk(np.abs(sv) + 1), "neighbors": nb, "neighbors_sizes": np.full(n, 2, dtype=np.int64)}
-    if f == "reg_weights": return {"pixel_signals": mk((np.abs(sv) % 5) / 4.0) if dt != np.int64 else mk(np.abs(sv) % 2)}
+    if f == "reg_weights": return {"pixel_signals": mk(np.abs(sv) % 2)}
     raise ValueError(f)
 def util_call(inp, a, settings):
     aa = import_aa()
@@ -1761,7 +1764,7 @@ def run_util(inp):
     settings = None
     if inp["fn"] == "positive_only" and inp.get("settings") != "omitted":
         settings = aa.SettingsInversion(use_positive_only_solver=True, positive_only_uses_p_initial=bool(inp.get("p_initial")))
-    w = Watch([a, settings])
+    w = Watch([types.SimpleNamespace(**a), settings])
     bad = []
     r1 = util_call(inp, a, settings)
     ch = w.bad()
@@ -2013,6 +2016,9 @@ def gen_history(rng, n_steps, flavour, allow_d8=False):
             else: shape = [count_false(mask) + (1 if wrong else 0)] + ([2] if per == 2 else [])
             if wrong and native: shape[0] += 1
             v = vals(int(np.prod(shape)))
+            # input KINDS: an integer-typed or Fortran-ordered array where a float64 C array is usual (same values; float32 is not
+            # used: a natively stored float32 array legitimately keeps its precision, so means differ from the float64 twin's)
+            if kind in ("array", "grid", "vector") and rng.random() < 0.25: dt = rng.choice(["int", "fortran"])
         g.steps.append({"o": "new", "kind": "nd", "shape": shape, "v": v, "dtype": dt})
         g.inputs.append({"kind": "nd", "for": kind, "mask": mask, "native": native, "shape": shape, "wrong": wrong})
         return len(g.inputs) - 1
@@ -2286,6 +2292,14 @@ def gen_inputs(tier, rng):
         if k % 2 == 0:       # every quantity of the inversion after every other one
             reads = with_sweeps(rng, reads[:4], [["inv", q] for q in GRAPH_Q["inv"]] + [["mapper0", "mapping_matrix"], ["ds", "signal_to_noise_map"]])
         yield {"op": "graph", "cfg": cfg, "reads": reads}
+    # the D21 witness (w-tilde, a mapper and a linear function object, a preloaded mapper data vector: the function rows must not be
+    # written into the caller's array), in three variants
+    for k, (pre, pos) in enumerate(((["data_vector_mapper"], False), (["data_vector_mapper", "regularization_matrix"], False),
+                                    (["data_vector_mapper"], True))):
+        yield {"op": "graph", "cfg": {"shape": [5, 5 + k % 2], "holes": [], "data": list(range(25 + 5 * (k % 2))), "noise": [2] * (25 + 5 * (k % 2)),
+                                      "mappers": [[3, 3, 1.0]], "w_tilde": True, "positive": pos, "force_edge": False, "sub": 1, "preloads": pre,
+                                      "funcs": [{"pos": "after", "cols": [1] * (9 + 3 * (k % 2)), "coeff": None}]},
+               "reads": [["inv", "data_vector"], ["inv", "reconstruction"], ["inv", "data_vector"], ["inv", "mapped_reconstructed_data"]]}
     # the D20 witness: two mappers, w-tilde, a preloaded block-diagonal curvature matrix
     yield {"op": "graph", "cfg": {"shape": [5, 6], "holes": [[2, 2]], "data": list(range(30)), "noise": [2] * 30, "mappers": [[3, 3, 1.0], [2, 2, 1.0]],
                                   "w_tilde": True, "positive": False, "sub": 1, "preloads": ["curvature_matrix_mapper_diag"]},
